@@ -266,7 +266,7 @@ const (
 	UPDATE
 		locks
 	SET
-		expires_at = $1 + ttl
+		expires_at = CASE WHEN ttl > 9223372036854775807 - $1 THEN 9223372036854775807 ELSE $1 + ttl END
 	WHERE
 		process_id = $2`
 
@@ -368,7 +368,7 @@ const (
 	UPDATE
 		tasks
 	SET
-		expires_at = $1 + ttl
+		expires_at = CASE WHEN ttl > 9223372036854775807 - $1 THEN 9223372036854775807 ELSE $1 + ttl END
 	WHERE
 		process_id = $2 AND state = 4`
 )
